@@ -436,7 +436,7 @@ def run(ctx):
     if ctx.shard == 0:
         for c in DIRECTED:
             ctx.run_case(judge, dict(c))
-    n = ctx.scale(3000, 80000)
+    n = ctx.scale(12000, 150000)
     for i in range(n):
         c = gen_case(ctx)
         ctx.run_case(judge, c)
